@@ -250,6 +250,16 @@ func (d *mapDecoder) DecodePath(ctx *RuntimeContext, cursor, depth int64) ([][]b
 		}
 		valueStart := cursor
 		selected := len(ret)
+		var pristine []byte
+		if found && child != nil && node.recursive() {
+			// the value is walked twice (for the rest of the path now, for further matches below it
+			// afterwards) and a walk unescapes keys and strings where they stand: keep the text
+			end, err := skipValue(buf, cursor, depth)
+			if err != nil {
+				return nil, 0, err
+			}
+			pristine = append([]byte(nil), buf[cursor:end]...)
+		}
 		if found {
 			if child != nil {
 				oldPath := ctx.Option.Path.node
@@ -283,6 +293,9 @@ func (d *mapDecoder) DecodePath(ctx *RuntimeContext, cursor, depth int64) ([][]b
 			// selected from it must no longer share the buffer.
 			for i := selected; i < len(ret); i++ {
 				ret[i] = append([]byte(nil), ret[i]...)
+			}
+			if pristine != nil {
+				copy(buf[valueStart:], pristine)
 			}
 			paths, _, err := d.valueDecoder.DecodePath(ctx, valueStart, depth)
 			if err != nil {
